@@ -39,7 +39,7 @@ func (fc *FnCtx) contractEnv(c *FuncContract, fn *ssa.Function, args []Val, st, 
 	return env
 }
 
-func (env *Env) bindResults(fn *ssa.Function, vals []Val, fr *frame) {
+func (env *Env) bindResults(fn *ssa.Function, vals []Val, resVals []ssa.Value, fr *frame) {
 	sig := fn.Signature
 	for i := 0; i < sig.Results().Len() && i < len(vals); i++ {
 		t, ok := vals[i].(Term)
@@ -50,7 +50,11 @@ func (env *Env) bindResults(fn *ssa.Function, vals []Val, fr *frame) {
 				continue
 			}
 		}
-		cv := CVal{t, sig.Results().At(i).Type()}
+		rt := sig.Results().At(i).Type()
+		if i < len(resVals) && isMapType(rt) {
+			rt = withReg(rt, env.fc.e.regionOf(resVals[i]))
+		}
+		cv := CVal{t, rt}
 		env.vars["result"+strconv.Itoa(i)] = cv
 		if n := sig.Results().At(i).Name(); n != "" && n != "_" {
 			env.vars[n] = cv
@@ -264,6 +268,21 @@ func (env *Env) eval(e Expr) (CVal, error) {
 			_ = typeFacts
 		}
 		body, err := env.evalBool(x.Body)
+		var pats string
+		if err == nil {
+			for _, grp := range x.Triggers {
+				var ts []string
+				for _, te := range grp {
+					tv, terr := env.eval(te)
+					if terr != nil {
+						err = terr
+						break
+					}
+					ts = append(ts, tv.T.S)
+				}
+				pats += " :pattern (" + strings.Join(ts, " ") + ")"
+			}
+		}
 		for _, qv := range x.Vars {
 			delete(env.bound, qv.Name)
 			if o, ok := saved[qv.Name]; ok {
@@ -276,6 +295,9 @@ func (env *Env) eval(e Expr) (CVal, error) {
 		q := "exists"
 		if x.Forall {
 			q = "forall"
+		}
+		if pats != "" {
+			return CVal{Term{fmt.Sprintf("(%s (%s) (! %s%s))", q, strings.Join(binders, " "), body.S, pats), SBool}, nil}, nil
 		}
 		return CVal{Term{fmt.Sprintf("(%s (%s) %s)", q, strings.Join(binders, " "), body.S), SBool}, nil}, nil
 	case *ECall:
@@ -390,7 +412,11 @@ func (env *Env) fieldSel(base CVal, name string) (CVal, error) {
 			if f.Name() == name {
 				srt := fc.e.sortOf(f.Type())
 				a := fc.heapGet(env.state(), fieldArrName(stT, name), arr(SInt, srt))
-				return CVal{Term{sel(a.S, base.T.S), srt}, f.Type()}, nil
+				reg := ""
+				if isMapType(f.Type()) {
+					reg = fc.e.regionOfField(stT, f)
+				}
+				return CVal{Term{sel(a.S, base.T.S), srt}, withReg(f.Type(), reg)}, nil
 			}
 		}
 		return CVal{}, fmt.Errorf("no field %s in %s", name, shortType(stT))
@@ -446,9 +472,13 @@ func (env *Env) index(base, idx CVal) (CVal, error) {
 	fc := env.fc
 	if base.GoT != nil {
 		if mt, ok := base.GoT.Underlying().(*types.Map); ok {
-			_, vn, ks, vs := fc.mapArrs(mt)
+			_, vn, ks, vs := fc.mapArrs(mt, regOfT(base.GoT))
 			val := fc.heapGet(env.state(), vn, arr(SInt, arr(ks, vs)))
-			return CVal{Term{sel(sel(val.S, base.T.S), idx.T.S), vs}, mt.Elem()}, nil
+			er := ""
+			if isMapType(mt.Elem()) {
+				er = fc.e.regionElem(regOrDefault(fc.e, base))
+			}
+			return CVal{Term{sel(sel(val.S, base.T.S), idx.T.S), vs}, withReg(mt.Elem(), er)}, nil
 		}
 	}
 	switch {
@@ -461,7 +491,7 @@ func (env *Env) index(base, idx CVal) (CVal, error) {
 				et = s.Elem()
 			}
 		}
-		return CVal{Term{fmt.Sprintf("(select (sarr %s) (+ (soff %s) %s))", base.T.S, base.T.S, idx.T.S), sortArgs(base.T.Sort)[0]}, et}, nil
+		return CVal{fc.slcAt(base.T, idx.T.S), et}, nil
 	case isArr(base.T.Sort):
 		return CVal{Term{sel(base.T.S, idx.T.S), sortArgs(base.T.Sort)[1]}, nil}, nil
 	}
@@ -532,7 +562,7 @@ func (env *Env) call(x *ECall) (CVal, error) {
 		if !ok {
 			return CVal{}, fmt.Errorf("has on non-map")
 		}
-		dn, _, ks, _ := fc.mapArrs(mt)
+		dn, _, ks, _ := fc.mapArrs(mt, regOfT(args[0].GoT))
 		dom := fc.heapGet(env.state(), dn, arr(SInt, arr(ks, SBool)))
 		return CVal{Term{sel(sel(dom.S, args[0].T.S), args[1].T.S), SBool}, nil}, nil
 	case "dom": // dom(m): the domain as a set
@@ -544,7 +574,7 @@ func (env *Env) call(x *ECall) (CVal, error) {
 		if !ok {
 			return CVal{}, fmt.Errorf("dom on non-map")
 		}
-		dn, _, ks, _ := fc.mapArrs(mt)
+		dn, _, ks, _ := fc.mapArrs(mt, regOfT(args[0].GoT))
 		dom := fc.heapGet(env.state(), dn, arr(SInt, arr(ks, SBool)))
 		return CVal{Term{sel(dom.S, args[0].T.S), arr(ks, SBool)}, nil}, nil
 	case "vals": // vals(m): the value array
@@ -556,7 +586,7 @@ func (env *Env) call(x *ECall) (CVal, error) {
 		if !ok {
 			return CVal{}, fmt.Errorf("vals on non-map")
 		}
-		_, vn, ks, vs := fc.mapArrs(mt)
+		_, vn, ks, vs := fc.mapArrs(mt, regOfT(args[0].GoT))
 		val := fc.heapGet(env.state(), vn, arr(SInt, arr(ks, vs)))
 		return CVal{Term{sel(val.S, args[0].T.S), arr(ks, vs)}, nil}, nil
 	case "deref":
@@ -571,6 +601,20 @@ func (env *Env) call(x *ECall) (CVal, error) {
 		srt := fc.e.sortOf(elemT)
 		a := fc.heapGet(env.state(), derefArrName(elemT), arr(SInt, srt))
 		return CVal{Term{sel(a.S, args[0].T.S), srt}, elemT}, nil
+	case "parent": // parent(m): the map into which map m was (first) stored as a value; 0 if none
+		args, err := evalArgs()
+		if err != nil {
+			return CVal{}, err
+		}
+		mp := fc.heapGet(env.state(), "MP", arr(SInt, SInt))
+		return CVal{Term{sel(mp.S, args[0].T.S), SInt}, nil}, nil
+	case "pkey": // pkey(m): the key under which map m was stored into parent(m)
+		args, err := evalArgs()
+		if err != nil {
+			return CVal{}, err
+		}
+		mpk := fc.heapGet(env.state(), "MPK$String", arr(SInt, SString))
+		return CVal{Term{sel(mpk.S, args[0].T.S), SString}, nil}, nil
 	case "fresh": // fresh(r): not allocated in the old state, non-nil
 		args, err := evalArgs()
 		if err != nil {
@@ -585,6 +629,16 @@ func (env *Env) call(x *ECall) (CVal, error) {
 		}
 		al := fc.heapGet(env.state(), "Alloc", arr(SInt, SBool))
 		return CVal{Term{fmt.Sprintf("(and (> %s 0) (select %s %s))", args[0].T.S, al.S, args[0].T.S), SBool}, nil}, nil
+	case "distinct":
+		args, err := evalArgs()
+		if err != nil {
+			return CVal{}, err
+		}
+		var as []string
+		for _, a := range args {
+			as = append(as, a.T.S)
+		}
+		return CVal{Term{"(distinct " + strings.Join(as, " ") + ")", SBool}, nil}, nil
 	case "isnil":
 		args, err := evalArgs()
 		if err != nil {
@@ -687,6 +741,7 @@ var smtBuiltins = map[string]smtB{
 	"utf8width": {"utf8$width", SInt, []string{SString}},
 	"foldcase":  {"str$fold", SString, []string{SString}},
 	"lowercase": {"str$lower", SString, []string{SString}},
+	"hexu":      {"uuid$hex", SString, []string{SString}},
 }
 
 func (env *Env) callSpec(sf *SpecFunc, args []CVal) (CVal, error) {
@@ -748,7 +803,12 @@ func (env *Env) callSpec(sf *SpecFunc, args []CVal) (CVal, error) {
 	return CVal{Term{"(spec$" + sf.Name + " " + strings.Join(as, " ") + ")", rs}, rt}, nil
 }
 
-func specPkg(sf *SpecFunc, dflt string) string { return dflt }
+func specPkg(sf *SpecFunc, dflt string) string {
+	if sf.Pkg != "" {
+		return sf.Pkg
+	}
+	return dflt
+}
 
 // declareSpec emits the declaration (or pure definition) of a spec function.
 func (fc *FnCtx) declareSpec(sf *SpecFunc) error {
@@ -761,6 +821,7 @@ func (fc *FnCtx) declareSpec(sf *SpecFunc) error {
 	if fc.c != nil {
 		pkg = fc.c.Pkg
 	}
+	pkg = specPkg(sf, pkg)
 	var ps, ps2 []string
 	for _, p := range sf.Params {
 		_, s, err := fc.e.resolveType(p.Type, pkg)
@@ -804,6 +865,7 @@ type loc struct {
 	arr  string
 	sort string
 	ref  Term
+	pred string // non-empty: a set of references {r | pred with %r replaced by r}
 }
 
 // evalLocs evaluates a modifies expression to heap locations (in the current state of env).
@@ -816,7 +878,7 @@ func (env *Env) evalLocs(e Expr) ([]loc, error) {
 			if err != nil {
 				return nil, err
 			}
-			return []loc{{"GV" + x.Name, srt, Term{"", "SCALAR"}}}, nil
+			return []loc{{"GV" + x.Name, srt, Term{"", "SCALAR"}, ""}}, nil
 		}
 	case *ESel:
 		base, err := env.eval(x.X)
@@ -830,14 +892,14 @@ func (env *Env) evalLocs(e Expr) ([]loc, error) {
 					case "len", "out":
 						ct := base.GoT.Underlying().(*types.Chan)
 						es := fc.e.sortOf(ct.Elem())
-						return []loc{{"CL", arr(SInt, SInt), base.T}, {"CO$" + sanitize(es), arr(SInt, arr(SInt, es)), base.T}}, nil
+						return []loc{{"CL", arr(SInt, SInt), base.T, ""}, {"CO$" + sanitize(es), arr(SInt, arr(SInt, es)), base.T, ""}}, nil
 					case "closed":
-						return []loc{{"CC", arr(SInt, SInt), base.T}}, nil
+						return []loc{{"CC", arr(SInt, SInt), base.T, ""}}, nil
 					}
 				}
 				if p, ok := base.GoT.Underlying().(*types.Pointer); ok {
 					if strings.HasPrefix(x.Name, "lock_") {
-						return []loc{{"LK$" + sanitize(shortType(p.Elem())) + "$" + x.Name[5:], arr(SInt, SInt), base.T}}, nil
+						return []loc{{"LK$" + sanitize(shortType(p.Elem())) + "$" + x.Name[5:], arr(SInt, SInt), base.T, ""}}, nil
 					}
 					key := typeKey(p.Elem()) + ".#" + x.Name
 					if g, ok := fc.e.specs.Ghost[key]; ok {
@@ -845,7 +907,7 @@ func (env *Env) evalLocs(e Expr) ([]loc, error) {
 						if err != nil {
 							return nil, err
 						}
-						return []loc{{"G$" + sanitize(shortType(p.Elem())) + "$" + x.Name, arr(SInt, srt), base.T}}, nil
+						return []loc{{"G$" + sanitize(shortType(p.Elem())) + "$" + x.Name, arr(SInt, srt), base.T, ""}}, nil
 					}
 				}
 			}
@@ -861,7 +923,7 @@ func (env *Env) evalLocs(e Expr) ([]loc, error) {
 		}
 		for i := 0; i < st.NumFields(); i++ {
 			if st.Field(i).Name() == x.Name {
-				return []loc{{fieldArrName(p.Elem(), x.Name), arr(SInt, fc.e.sortOf(st.Field(i).Type())), base.T}}, nil
+				return []loc{{fieldArrName(p.Elem(), x.Name), arr(SInt, fc.e.sortOf(st.Field(i).Type())), base.T, ""}}, nil
 			}
 		}
 		return nil, fmt.Errorf("modifies: no field %s", x.Name)
@@ -873,14 +935,32 @@ func (env *Env) evalLocs(e Expr) ([]loc, error) {
 				return nil, err
 			}
 			if mt, ok := v.GoT.Underlying().(*types.Map); ok {
-				dn, vn, ks, vs := fc.mapArrs(mt)
-				return []loc{{dn, arr(SInt, arr(ks, SBool)), v.T}, {vn, arr(SInt, arr(ks, vs)), v.T}}, nil
+				dn, vn, ks, vs := fc.mapArrs(mt, regOfT(v.GoT))
+				return []loc{{dn, arr(SInt, arr(ks, SBool)), v.T, ""}, {vn, arr(SInt, arr(ks, vs)), v.T, ""}}, nil
 			}
 			if ct, ok := v.GoT.Underlying().(*types.Chan); ok {
 				es := fc.e.sortOf(ct.Elem())
-				return []loc{{"CL", arr(SInt, SInt), v.T}, {"CO$" + sanitize(es), arr(SInt, arr(SInt, es)), v.T}, {"CC", arr(SInt, SInt), v.T}}, nil
+				return []loc{{"CL", arr(SInt, SInt), v.T, ""}, {"CO$" + sanitize(es), arr(SInt, arr(SInt, es)), v.T, ""}, {"CC", arr(SInt, SInt), v.T, ""}}, nil
 			}
 			return nil, fmt.Errorf("contents() of %s", shortType(v.GoT))
+		case "children":
+			// children(m): every map that was stored as a value into map m (built-in ghost parent link)
+			v, err := env.eval(x.Args[0])
+			if err != nil {
+				return nil, err
+			}
+			mt, ok := v.GoT.Underlying().(*types.Map)
+			if !ok {
+				return nil, fmt.Errorf("children() of non-map")
+			}
+			it, ok := mt.Elem().Underlying().(*types.Map)
+			if !ok {
+				return nil, fmt.Errorf("children() of a map whose values are not maps")
+			}
+			dn, vn, ks, vs := fc.mapArrs(it, fc.e.regionElem(regOrDefault(fc.e, v)))
+			mp := fc.heapGet(env.state(), "MP", arr(SInt, SInt))
+			pred := fmt.Sprintf("(and (not (= %s 0)) (= (select %s %%r) %s))", v.T.S, mp.S, v.T.S)
+			return []loc{{dn, arr(SInt, arr(ks, SBool)), Term{}, pred}, {vn, arr(SInt, arr(ks, vs)), Term{}, pred}}, nil
 		case "deref":
 			v, err := env.eval(x.Args[0])
 			if err != nil {
@@ -896,11 +976,11 @@ func (env *Env) evalLocs(e Expr) ([]loc, error) {
 					if isSyncType(st.Field(i).Type()) {
 						continue
 					}
-					out = append(out, loc{fieldArrName(elemT, st.Field(i).Name()), arr(SInt, fc.e.sortOf(st.Field(i).Type())), v.T})
+					out = append(out, loc{fieldArrName(elemT, st.Field(i).Name()), arr(SInt, fc.e.sortOf(st.Field(i).Type())), v.T, ""})
 				}
 				return out, nil
 			}
-			return []loc{{derefArrName(elemT), arr(SInt, fc.e.sortOf(elemT)), v.T}}, nil
+			return []loc{{derefArrName(elemT), arr(SInt, fc.e.sortOf(elemT)), v.T, ""}}, nil
 		}
 	}
 	return nil, fmt.Errorf("unsupported modifies expression %s", e)
@@ -948,4 +1028,14 @@ func (fc *FnCtx) resolveHeapName(n, pkg string) string {
 		return "G$" + sanitize(shortType(t)) + "$" + fn[1:]
 	}
 	return fieldArrName(t, fn)
+}
+
+func regOrDefault(e *Engine, v CVal) string {
+	if r := regOfT(v.GoT); r != "" {
+		return r
+	}
+	if v.GoT != nil {
+		return e.regionDefault(v.GoT)
+	}
+	return ""
 }
